@@ -1197,6 +1197,120 @@ class Directed(object):
                         m.StrSubstr(sx, m.Int(z), m.Int(1)), m.StrSubstr(sx, m.Int(0), m.Int(z)), m.StrSubstr(c, self.i, m.Int(z))]
         return out
 
+    def gen_siblings(self):
+        """Both operands of one binary relation are n-ary nodes over the same 2-3 element support: identical, permuted,
+        same support with different multiplicities, sub-multiset, one extra operand, an operand replaced by 0 / 1,
+        nested against flat spelling; every relation x every n-ary operator (StrConcat: order matters)."""
+        m = self.m
+        out = []
+
+        def variants(x, y, z, c0, c1, nary, binary):
+            """pairs (L, R) of operand LISTS turned into terms by nary (flat) / binary (left-nested)"""
+            xxy, xyy, yxx, xyx = [x, x, y], [x, y, y], [y, x, x], [x, y, x]
+            pairs = [(xxy, xxy), (xxy, yxx), (xxy, xyx), (xxy, xyy), (xyy, yxx), (xxy, [x, y]), ([x, y], [y, x]), ([x, y], [x, y, z]),
+                     ([x, y, z], [z, y, x]), ([x, y, z], [x, y, y]), (xxy, [x, c0, y]), (xxy, [x, c1, y]), ([x, y], [x, c0]), ([x, y], [c1, y])]
+            res = []
+            for l, r in pairs:
+                res.append((nary(l), nary(r)))
+            res += [(binary(xxy), nary(xxy)), (binary(xxy), nary(yxx)), (binary(xxy), binary(xyy)), (binary([x, y, z]), binary([z, y, x]))]
+            return res
+
+        def lnest(f):
+            def g(l):
+                t = l[0]
+                for a in l[1:]:
+                    t = f(t, a)
+                return t
+            return g
+        # Int / Real
+        for (x, y, z, K) in ((self.i, self.j, m.Symbol("k", INT), m.Int), (self.r, self.s, m.Symbol("t", REAL), m.Real)):
+            for nary in (m.Plus, m.Times):
+                for l, r in variants(x, y, z, K(0), K(1), lambda l, nary=nary: nary(l), lnest(lambda a, b, nary=nary: nary(a, b))):
+                    out += [m.Equals(l, r), m.LE(l, r), m.LT(l, r), m.Not(m.Equals(l, r))]
+        # Bool
+        p, q, b3 = self.p, self.q, self.b3
+        for nary in (m.And, m.Or):
+            for l, r in variants(p, q, b3, m.FALSE(), m.TRUE(), lambda l, nary=nary: nary(l), lnest(lambda a, b, nary=nary: nary(a, b))):
+                out += [m.Iff(l, r), m.Implies(l, r), m.Not(m.Iff(l, r))]
+        # BV: the operators are binary; n-ary sums are nested
+        for w in (2, 3):
+            x, y, z = m.Symbol("sx%d" % w, BVType(w)), m.Symbol("sy%d" % w, BVType(w)), m.Symbol("sz%d" % w, BVType(w))
+            for f in (m.BVAdd, m.BVMul, m.BVAnd, m.BVOr, m.BVXor):
+                vs = variants(x, y, z, m.BV(0, w), m.BV(1, w), lnest(f), lambda l, f=f: f(l[0], lnest(f)(l[1:])) if len(l) > 1 else l[0])
+                for l, r in vs:
+                    out += [m.Equals(l, r), m.BVULT(l, r), m.BVULE(l, r), m.BVSLT(l, r), m.BVSLE(l, r), m.BVComp(l, r)]
+        # strings: concatenation is not commutative
+        sx, sy, sz = self.sx, self.sy, m.Symbol("sz", STRING)
+        for l, r in variants(sx, sy, sz, m.String(""), m.String("a"), lambda l: m.StrConcat(l), lnest(lambda a, b: m.StrConcat(a, b))):
+            out += [m.Equals(l, r), m.StrPrefixOf(l, r), m.StrSuffixOf(l, r), m.StrContains(l, r), m.Equals(m.StrLength(l), m.StrLength(r))]
+        return out
+
+    def selfref_bv(self, w, full=True):
+        """rel(t, op(t, c)), rel(op(t, c), t), rel(op(t, c1), op(t, c2)): the same sub-term in both operands of a
+        relation, once plain and once under an operator with a small constant"""
+        m = self.m
+        x, y = m.Symbol("rx%d" % w, BVType(w)), m.Symbol("ry%d" % w, BVType(w))
+        mx = (1 << w) - 1
+        cs = []
+        for v in (0, 1, 2, mx, 1 << (w - 1)):
+            if 0 <= v <= mx and v not in cs:
+                cs.append(v)
+        cs = [m.BV(v, w) for v in cs]
+        ops = [("add", lambda t, c: m.BVAdd(t, c)), ("add'", lambda t, c: m.BVAdd(c, t)), ("sub", lambda t, c: m.BVSub(t, c)),
+               ("mul", lambda t, c: m.BVMul(t, c)), ("shl", lambda t, c: m.BVLShl(t, c)), ("lshr", lambda t, c: m.BVLShr(t, c)),
+               ("ashr", lambda t, c: m.BVAShr(t, c)), ("udiv", lambda t, c: m.BVUDiv(t, c)), ("urem", lambda t, c: m.BVURem(t, c)),
+               ("and", lambda t, c: m.BVAnd(t, c)), ("or", lambda t, c: m.BVOr(t, c)), ("xor", lambda t, c: m.BVXor(t, c)),
+               ("ite", lambda t, c: m.Ite(self.p, t, c))]
+        unops = [lambda t: m.BVNeg(t), lambda t: m.BVNot(t)]
+        if w > 1:
+            unops += [lambda t: m.BVConcat(m.BVExtract(t, 0, w - 2), m.BVExtract(t, w - 1, w - 1)),
+                      lambda t: m.BVExtract(m.BVZExt(t, 1), 1, w), lambda t: m.BVExtract(m.BVSExt(t, 1), 0, w - 1)]
+        rels = [m.BVULT, m.BVULE, m.BVSLT, m.BVSLE, m.Equals, m.BVComp]
+        ts = [x, m.BVAdd(x, y)] if (full and w <= 2) or self.tier != "quick" else [x]
+        out = []
+        for t in ts:
+            for rel in (rels if (full and t is x) or self.tier != "quick" else rels[:1] + rels[4:5]):
+                for _, f in (ops if (t is x and full) or self.tier != "quick" else ops[:6] if t is x else ops[:4]):
+                    for c in cs:
+                        out += [rel(t, f(t, c)), rel(f(t, c), t)]
+                for u in unops:
+                    out += [rel(t, u(t)), rel(u(t), t)]
+                for (c1, c2) in ((cs[0], cs[1 % len(cs)]), (cs[1 % len(cs)], cs[-1]), (cs[1 % len(cs)], cs[2 % len(cs)])):
+                    out += [rel(m.BVAdd(t, c1), m.BVAdd(t, c2)), rel(m.BVSub(t, c1), m.BVAdd(t, c2)), rel(m.BVMul(t, c1), m.BVMul(t, c2))]
+        return out
+
+    def gen_selfref(self):
+        m = self.m
+        quick = self.tier == "quick"
+        out = []
+        for w in (1, 2, 3, 4):
+            out += self.selfref_bv(w, full=(w in (2, 4)) or not quick)
+        for w in (8, 13):                      # not exhaustive: the boundary interpretations decide
+            x = m.Symbol("rx%d" % w, BVType(w))
+            mx = (1 << w) - 1
+            for c in (m.BV(1, w), m.BV(mx, w), m.BV(1 << (w - 1), w)):
+                for f in (m.BVAdd, m.BVSub, m.BVMul, m.BVLShl, m.BVLShr, m.BVUDiv):
+                    for rel in ((m.BVULT, m.Equals) if quick else (m.BVULT, m.BVULE, m.BVSLT, m.Equals)):
+                        out += [rel(x, f(x, c)), rel(f(x, c), x)]
+        for (v, v2, K) in ((self.i, self.j, m.Int), (self.r, self.s, m.Real)):
+            for t in ((v,) if quick else (v, m.Plus(v, v2))):
+                for cz in (0, 1, -1, 2):
+                    c = K(cz)
+                    for f in (lambda t, c: m.Plus(t, c), lambda t, c: m.Minus(t, c), lambda t, c: m.Times(t, c), lambda t, c: m.Div(t, c),
+                              lambda t, c: m.Minus(c, t), lambda t, c: m.Ite(self.p, t, c)):
+                        for rel in (m.LE, m.LT, m.Equals):
+                            out += [rel(t, f(t, c)), rel(f(t, c), t)]
+                for rel in (m.LE, m.LT, m.Equals):
+                    out += [rel(m.Plus(t, K(1)), m.Plus(t, K(2))), rel(m.Times(t, K(2)), m.Plus(t, t)), rel(m.Minus(t, K(1)), m.Plus(t, K(-1)))]
+        sx = self.sx
+        for c in (m.String(""), m.String("a")):
+            for f in (lambda t, c: m.StrConcat(t, c), lambda t, c: m.StrConcat(c, t), lambda t, c: m.StrReplace(t, c, m.String("b")),
+                      lambda t, c: m.StrSubstr(t, m.Int(0), m.StrLength(t)), lambda t, c: m.StrSubstr(t, m.Int(1), m.StrLength(t))):
+                out += [m.Equals(sx, f(sx, c)), m.StrPrefixOf(sx, f(sx, c)), m.StrPrefixOf(f(sx, c), sx), m.StrSuffixOf(sx, f(sx, c)),
+                        m.StrSuffixOf(f(sx, c), sx), m.StrContains(f(sx, c), sx), m.StrContains(sx, f(sx, c)),
+                        m.LE(m.StrLength(sx), m.StrLength(f(sx, c))), m.LT(m.StrLength(sx), m.StrLength(f(sx, c)))]
+        return out
+
     def gen_uf_quant(self):
         m = self.m
         out = []
@@ -1561,7 +1675,7 @@ def run_simplify(chk, rnd, tier):
     plan = [("bool", lambda d: d.gen_bool()), ("int", lambda d: d.gen_arith(INT)), ("real", lambda d: d.gen_arith(REAL)),
             ("strings", lambda d: d.gen_strings()), ("string-hazard", lambda d: d.gen_string_hazard()),
             ("arrays", lambda d: d.gen_arrays()), ("array-nest", lambda d: d.gen_array_nest()), ("boundary", lambda d: d.gen_boundary()),
-            ("uf-quant", lambda d: d.gen_uf_quant())]
+            ("siblings", lambda d: d.gen_siblings()), ("selfref", lambda d: d.gen_selfref()), ("uf-quant", lambda d: d.gen_uf_quant())]
     for w in ((4, 8, 32, 64, 129) if quick else (1, 2, 3, 4, 5, 8, 16, 32, 64, 129)):
         plan.append(("bv-shapes-%d" % w, lambda d, w=w: d.gen_bv_shapes(w)))
     for w in ((1, 2, 3, 4) if quick else (1, 2, 3, 4, 5)):
